@@ -8,6 +8,12 @@
 //!           h = the library's HANDLER itself, running for a delivery of SIGUSR1, single-stepped (an action registered
 //!           before the instance turns the trap flag on inside the handler); SIGUSR2 is delivered - really nested - at every
 //!           boundary;  H = the same with `close()` of ANOTHER instance (watching SIGWINCH) called at every boundary
+//!           D = `drop(handle)` of the LAST Handle of an instance whose object is already gone (the handle keeps the
+//!           registration alive), a delivery at every boundary: the iterator's action must not allocate or free heap memory
+//!           inside the handler (C03) - counted by this binary's allocator between a first and a last action of the signal
+//!           G = the handler single-stepped as in h, running for an instance whose object is gone and whose last Handle is
+//!           dropped BY ANOTHER THREAD at the boundary (it gets as far as the removal, which waits for this delivery): again no
+//!           heap traffic inside the handler (C03)
 //!   pre   deliveries made before the outer call: a string over {s, t} (s = SIGUSR1, t = SIGUSR2)
 //!
 //! The outer call is single-stepped (x86 trap flag).  At EVERY trap the process forks: the child
@@ -57,7 +63,43 @@ static INNER_WOKE: AtomicBool = AtomicBool::new(false);
 // outer h / H: the trap flag is switched on by an action inside the handler; H: the event is a close() of OTHER
 static TRAP_IN_HANDLER: AtomicBool = AtomicBool::new(false);
 static INNER_CLOSE: AtomicBool = AtomicBool::new(false);
+static INNER_DROP_HANDLE: AtomicBool = AtomicBool::new(false);
 static mut OTHER: Option<signal_hook::iterator::Handle> = None;
+// outer D: heap traffic while the library's handler runs the actions between the first and the last action of the signal
+static IN_HANDLER: AtomicBool = AtomicBool::new(false);
+static HEAP_ALLOCS: AtomicUsize = AtomicUsize::new(0);
+static HEAP_FREES: AtomicUsize = AtomicUsize::new(0);
+
+// (only the thread that runs the handler counts: in a forked child that is the thread whose id is the process id)
+fn on_handler_thread() -> bool {
+    unsafe { libc::syscall(libc::SYS_gettid) == libc::getpid() as libc::c_long }
+}
+static HANDLER_CLOSES: AtomicUsize = AtomicUsize::new(0);
+/// every close() of the statically linked crates goes through here: descriptors released inside the handler are counted
+#[no_mangle]
+pub unsafe extern "C" fn close(fd: libc::c_int) -> libc::c_int {
+    if IN_HANDLER.load(Ordering::Relaxed) && on_handler_thread() {
+        HANDLER_CLOSES.fetch_add(1, Ordering::Relaxed);
+    }
+    libc::syscall(libc::SYS_close, fd) as libc::c_int
+}
+struct CountInHandler;
+unsafe impl std::alloc::GlobalAlloc for CountInHandler {
+    unsafe fn alloc(&self, l: std::alloc::Layout) -> *mut u8 {
+        if IN_HANDLER.load(Ordering::Relaxed) && on_handler_thread() {
+            HEAP_ALLOCS.fetch_add(1, Ordering::Relaxed);
+        }
+        std::alloc::System.alloc(l)
+    }
+    unsafe fn dealloc(&self, p: *mut u8, l: std::alloc::Layout) {
+        if IN_HANDLER.load(Ordering::Relaxed) && on_handler_thread() {
+            HEAP_FREES.fetch_add(1, Ordering::Relaxed);
+        }
+        std::alloc::System.dealloc(p, l)
+    }
+}
+#[global_allocator]
+static ALLOC: CountInHandler = CountInHandler;
 static mut OTHER_INST: Option<signal_hook::iterator::Signals> = None;
 // the consumer thread blocked in wait() on the other instance: 0 not started, 1 running, 2 returned (+ what it yielded)
 static OTHER_STATE: AtomicUsize = AtomicUsize::new(0);
@@ -135,7 +177,17 @@ extern "C" fn on_trap(_sig: libc::c_int, _info: *mut libc::siginfo_t, ctx: *mut 
         CHILD_K.store(step, Ordering::Relaxed);
         ARMED.store(false, Ordering::Relaxed);
         unsafe { libc::alarm(3) };
-        if INNER_CLOSE.load(Ordering::Relaxed) {
+        if INNER_DROP_HANDLE.load(Ordering::Relaxed) {
+            // another thread drops the last handle now; it proceeds until the removal has to wait for this delivery
+            unsafe {
+                if let Some(h) = (*std::ptr::addr_of_mut!(OTHER)).take() {
+                    let was = IN_HANDLER.swap(false, Ordering::Relaxed);
+                    std::thread::spawn(move || drop(h));
+                    std::thread::sleep(std::time::Duration::from_millis(20));
+                    IN_HANDLER.store(was, Ordering::Relaxed);
+                }
+            }
+        } else if INNER_CLOSE.load(Ordering::Relaxed) {
             close_other_with_blocked_consumer();
         } else {
             queue(INNER_SIG.load(Ordering::Relaxed) as i32, INNER_SEQ.load(Ordering::Relaxed));
@@ -613,6 +665,97 @@ where
     out(&format!("E {}\n", STEP.load(Ordering::Relaxed)));
 }
 
+/// The handler single-stepped while another thread drops the last Handle of the instance it runs for (outer G).
+fn sweep_handler_drop<E>(exf: E)
+where
+    E: Exfiltrator,
+    E::Output: Item,
+{
+    let _a1 = unsafe {
+        signal_hook_registry::register(S, || {
+            IN_HANDLER.store(true, Ordering::Relaxed);
+            if ARMED.load(Ordering::Relaxed) && TRAP_IN_HANDLER.load(Ordering::Relaxed) && !IS_CHILD.load(Ordering::Relaxed) {
+                trap_flag_on();
+            }
+        })
+    }
+    .unwrap();
+    let signals = SignalsInfo::with_exfiltrator(&[S], exf).unwrap();
+    let _a2 = unsafe { signal_hook_registry::register(S, || IN_HANDLER.store(false, Ordering::Relaxed)) }.unwrap();
+    unsafe { *std::ptr::addr_of_mut!(OTHER) = Some(signals.handle()) };
+    drop(signals);
+    READ_FD.store(usize::MAX, Ordering::Relaxed);
+    WRITE_FD.store(usize::MAX, Ordering::Relaxed);
+    INNER_DROP_HANDLE.store(true, Ordering::Relaxed);
+    STEP.store(0, Ordering::Relaxed);
+    TRAP_IN_HANDLER.store(true, Ordering::Relaxed);
+    ARMED.store(true, Ordering::Relaxed);
+    queue(S, 1);
+    ARMED.store(false, Ordering::Relaxed);
+    TRAP_IN_HANDLER.store(false, Ordering::Relaxed);
+    let child = IS_CHILD.load(Ordering::Relaxed);
+    let k = if child { CHILD_K.load(Ordering::Relaxed) } else { STEP.load(Ordering::Relaxed) + 1 };
+    let (a, f) = (HEAP_ALLOCS.load(Ordering::Relaxed), HEAP_FREES.load(Ordering::Relaxed));
+    let mut bad: Vec<String> = Vec::new();
+    if a + f != 0 {
+        bad.push(format!("ALLOC the delivery during which another thread dropped the last handle made {} allocation(s) and {} release(s) of heap memory inside the handler", a, f));
+    }
+    let c = HANDLER_CLOSES.load(Ordering::Relaxed);
+    if c != 0 {
+        bad.push(format!("RELEASE the delivery during which another thread dropped the last handle closed {} descriptor(s) inside the handler (what the action captured is for the removing thread to release)", c));
+    }
+    out(&format!("K {} {} | allocs {} frees {} closes {}\n", k, if bad.is_empty() { "OK".to_string() } else { format!("BAD {}", bad.join("; ")) }, a, f, c));
+    if child {
+        // give the dropping thread the time to finish the removal
+        std::thread::sleep(std::time::Duration::from_millis(5));
+        unsafe { libc::_exit(0) };
+    }
+    out(&format!("E {}\n", STEP.load(Ordering::Relaxed)));
+}
+
+/// `drop(handle)` of the last Handle single-stepped, the object of the instance dropped before (outer D).
+fn sweep_drop_handle<E>(exf: E)
+where
+    E: Exfiltrator,
+    E::Output: Item,
+{
+    let _a1 = unsafe { signal_hook_registry::register(S, || IN_HANDLER.store(true, Ordering::Relaxed)) }.unwrap();
+    let signals = SignalsInfo::with_exfiltrator(&[S], exf).unwrap();
+    let _a2 = unsafe { signal_hook_registry::register(S, || IN_HANDLER.store(false, Ordering::Relaxed)) }.unwrap();
+    let handle = signals.handle();
+    drop(signals);
+    READ_FD.store(usize::MAX, Ordering::Relaxed);
+    WRITE_FD.store(usize::MAX, Ordering::Relaxed);
+    // the registration is still there: a delivery runs the action, without touching the heap
+    queue(S, 7);
+    let mut bad: Vec<String> = Vec::new();
+    if HEAP_ALLOCS.load(Ordering::Relaxed) + HEAP_FREES.load(Ordering::Relaxed) != 0 {
+        bad.push(format!("ALLOC a delivery before the drop: {} allocation(s), {} release(s) inside the handler", HEAP_ALLOCS.load(Ordering::Relaxed), HEAP_FREES.load(Ordering::Relaxed)));
+    }
+    INNER_SEQ.store(1, Ordering::Relaxed);
+    STEP.store(0, Ordering::Relaxed);
+    ARMED.store(true, Ordering::Relaxed);
+    unsafe { trap_flag_on() };
+    drop(handle);
+    unsafe { trap_flag_off() };
+    ARMED.store(false, Ordering::Relaxed);
+    let child = IS_CHILD.load(Ordering::Relaxed);
+    let k = if child { CHILD_K.load(Ordering::Relaxed) } else { STEP.load(Ordering::Relaxed) + 1 };
+    if !child {
+        unsafe { libc::alarm(3) };
+        queue(S, 1);
+    }
+    let (a, f) = (HEAP_ALLOCS.load(Ordering::Relaxed), HEAP_FREES.load(Ordering::Relaxed));
+    if a + f != 0 && bad.is_empty() {
+        bad.push(format!("ALLOC the delivery that overlapped the drop of the last handle made {} allocation(s) and {} release(s) of heap memory inside the handler", a, f));
+    }
+    out(&format!("K {} {} | allocs {} frees {}\n", k, if bad.is_empty() { "OK".to_string() } else { format!("BAD {}", bad.join("; ")) }, a, f));
+    if child {
+        unsafe { libc::_exit(0) };
+    }
+    out(&format!("E {}\n", STEP.load(Ordering::Relaxed)));
+}
+
 /// `drop(instance)` single-stepped (C12: once the instance and all its handles are gone every registration is
 /// removed and its pipe closed), SIGUSR1 - which keeps the library's handler through a flag - delivered at the
 /// boundary.  Afterwards a delivery must not reach the dropped instance (no byte on a duplicate of its read end)
@@ -687,6 +830,14 @@ fn main() {
         assert_eq!(0, libc::sigaction(libc::SIGTRAP, &sa, ptr::null_mut()));
     }
     let pre = if a[3] == "-" { "" } else { a[3].as_str() };
+    if a[2] == "G" {
+        if a[1] == "r" { sweep_handler_drop(WithRawSiginfo::default()) } else { sweep_handler_drop(SignalOnly::default()) }
+        return;
+    }
+    if a[2] == "D" {
+        if a[1] == "r" { sweep_drop_handle(WithRawSiginfo::default()) } else { sweep_drop_handle(SignalOnly::default()) }
+        return;
+    }
     if a[2] == "d" {
         if a[1] == "r" { sweep_drop(WithRawSiginfo::default()) } else { sweep_drop(SignalOnly::default()) }
         return;
